@@ -4,16 +4,21 @@ package agentq
 
 import (
 	"fmt"
+	"io"
 	"net"
+	"reflect"
 	"regexp"
 	"sort"
 	"strings"
 	"testing"
 
+	"github.com/hashicorp/serf/client"
 	"github.com/hashicorp/serf/cmd/serf/command/agent"
 	"github.com/hashicorp/serf/serf"
 	"pgregory.net/rapid"
 
+	"verif/internal/node"
+	"verif/internal/simnet"
 	"verif/internal/vkit"
 )
 
@@ -23,6 +28,12 @@ import (
 // on a generated member set and generated patterns; the oracle is an
 // independent whole-string matcher built from the *bare* pattern (two
 // constructions, cross-checked against each other).
+//
+// One case in ten takes the whole way instead (RPC: true): a real agent with
+// its IPC server on loopback, members made known to its Serf through the
+// memberlist notifications (alive / leaving / left / failed), and the real
+// client's MembersFiltered; the oracle then filters what the same client's
+// unfiltered Members call returned.
 
 type c26Member struct {
 	Name   string            `json:"name"`
@@ -35,10 +46,11 @@ type c26Case struct {
 	Tags    map[string]string `json:"tag_filters"` // tag -> pattern (always applied)
 	Status  string            `json:"status"`      // "" = no status filter
 	Name    string            `json:"name"`        // "" = no name filter
+	RPC     bool              `json:"rpc,omitempty"`
 }
 
 var (
-	c26Values   = []string{"a", "b", "c", "ab", "ba", "aa", "abc", "cab", "bab", "a.b", "a-b", "a|b", "web", "db", "a\nb"}
+	c26Values   = []string{"a", "b", "c", "ab", "ba", "aa", "abc", "cab", "bab", "a.b", "a-b", "a|b", "web", "db", "a\nb", "A", "Web", "a\n", " a", "aaa", "é", "\\"}
 	c26NameLits = []string{"a", "b", "c", "ab", "ba", "abc", "web", "db", "-", `\.`, `\|`, "w", "e"}
 	c26StatLits = []string{"alive", "left", "failed", "leaving", "none", "a", "l", "f", "le", "ed", "ing", "n", "live", "fail", "e"}
 	c26TagKeys  = []string{"role", "dc", "x"}
@@ -165,7 +177,7 @@ func genC26(t *rapid.T) c26Case {
 	if nt > 0 {
 		c.Tags = map[string]string{}
 		for i := 0; i < nt; i++ {
-			k := rapid.SampledFrom([]string{"role", "dc", "x", "absent"}).Draw(t, "fkey")
+			k := rapid.SampledFrom([]string{"role", "dc", "x", "absent", "role", "dc", "x", "Role"}).Draw(t, "fkey")
 			if rapid.IntRange(0, 9).Draw(t, "emptypat") == 0 {
 				c.Tags[k] = ""
 			} else {
@@ -179,6 +191,7 @@ func genC26(t *rapid.T) c26Case {
 	if rapid.IntRange(0, 9).Draw(t, "hasname") < 6 {
 		c.Name = c26Pattern(t, c26NameLits)
 	}
+	c.RPC = rapid.IntRange(0, 9).Draw(t, "rpc") == 9
 	return c
 }
 
@@ -236,6 +249,14 @@ func c26InvalidClass(expr string) string {
 	return "other"
 }
 
+// c26Subject is one member as the oracle sees it.
+type c26Subject struct {
+	ID     string // how it is recognised in the returned list
+	Name   string
+	Status string
+	Tags   map[string]string
+}
+
 func bodyC26(c c26Case, x *vkit.Ctx) {
 	for _, m := range c.Members {
 		if m.Status < 0 || m.Status > 4 {
@@ -243,7 +264,13 @@ func bodyC26(c c26Case, x *vkit.Ctx) {
 			return
 		}
 	}
+	if c.RPC {
+		c26RPC(c, x)
+		return
+	}
+	x.Label("path:filter-direct")
 	members := make([]serf.Member, len(c.Members))
+	subjects := make([]c26Subject, len(c.Members))
 	for i, m := range c.Members {
 		var tags map[string]string
 		if m.Tags != nil {
@@ -254,6 +281,7 @@ func bodyC26(c c26Case, x *vkit.Ctx) {
 		}
 		members[i] = serf.Member{Name: m.Name, Addr: net.IPv4(10, 0, 0, byte(i+1)), Port: uint16(7000 + i),
 			Tags: tags, Status: serf.MemberStatus(m.Status)}
+		subjects[i] = c26Subject{ID: fmt.Sprint(7000 + i), Name: m.Name, Status: serf.MemberStatus(m.Status).String(), Tags: m.Tags}
 	}
 	var ftags map[string]string
 	if c.Tags != nil {
@@ -262,14 +290,147 @@ func bodyC26(c c26Case, x *vkit.Ctx) {
 			ftags[k] = v
 		}
 	}
+	before := make([]serf.Member, len(members))
+	copy(before, members)
 
 	got, err := agent.VerifFilterMembers(members, ftags, c.Status, c.Name)
 
-	// ---- oracle
+	// the call must leave what it was given alone
+	if !reflect.DeepEqual(before, members) {
+		x.Violationf("input-members-changed", "the member list handed to the filter was modified")
+		return
+	}
+	if (c.Tags == nil) != (ftags == nil) || len(ftags) != len(c.Tags) {
+		x.Violationf("input-filter-changed", "the tag filter map handed to the filter was modified: %q, was %q", ftags, c.Tags)
+		return
+	}
+	for k, v := range c.Tags {
+		if fv, ok := ftags[k]; !ok || fv != v {
+			x.Violationf("input-filter-changed", "the tag filter map handed to the filter was modified: %q, was %q", ftags, c.Tags)
+			return
+		}
+	}
+	var gotIDs []string
+	for _, g := range got {
+		gotIDs = append(gotIDs, fmt.Sprint(g.Port))
+		if i := int(g.Port) - 7000; i >= 0 && i < len(before) && !reflect.DeepEqual(g, before[i]) {
+			x.Violationf("listed-member-altered", "member #%d is listed as %+v, it is %+v", i, g, before[i])
+			return
+		}
+	}
+	c26Judge(c, x, subjects, gotIDs, got != nil, err)
+}
+
+// c26RPC: the same question asked the way a user asks it.
+func c26RPC(c c26Case, x *vkit.Ctx) {
+	x.Label("path:members-filtered-rpc")
+	const self = "zz-self"
+	nw := simnet.New(1)
+	conf, tr, _, _ := node.Config(nw, node.Opts{Name: self, Quiet: true, NoEventCh: true, Tags: map[string]string{"role": "ab", "x": "a|b"},
+		Mutate: func(sc *serf.Config) {
+			sc.Logger = nil
+			sc.MemberlistConfig.Logger = nil
+		}})
+	aconf := agent.DefaultConfig()
+	aconf.NodeName = self
+	a, err := agent.Create(aconf, conf, io.Discard)
+	if err != nil {
+		tr.Kill()
+		x.Inconclusive("agent could not be created")
+		return
+	}
+	if err := a.Start(); err != nil {
+		tr.Kill()
+		x.Inconclusive("agent could not be started")
+		return
+	}
+	ln, err := net.Listen("tcp", "127.0.0.1:0")
+	if err != nil {
+		a.Shutdown()
+		tr.Kill()
+		x.Inconclusive("cannot listen on loopback")
+		return
+	}
+	ipc := agent.NewAgentIPC(a, "", ln, io.Discard, agent.NewLogWriter(8), false)
+	defer func() {
+		a.Shutdown()
+		ipc.Shutdown()
+		tr.Kill()
+	}()
+
+	// make the members known: join, then whatever leads to the status
+	sf := a.Serf()
+	ed, dl := sf.VerifEventDelegate(), sf.VerifDelegate()
+	used := map[string]bool{self: true}
+	for i, m := range c.Members {
+		if used[m.Name] || m.Name == "" {
+			continue
+		}
+		used[m.Name] = true
+		var meta []byte
+		if m.Tags != nil {
+			meta = sf.VerifEncodeTags(m.Tags)
+		}
+		n := node.MLNode(m.Name, fmt.Sprintf("10.0.0.%d", i+1), uint16(7000+i), meta, 5, 5)
+		ed.NotifyJoin(n)
+		if m.Status == 2 || m.Status == 3 { // leaving, left: a leave intent first
+			buf, err := serf.VerifEncodeMessage(serf.VerifMessageLeaveType, &serf.VerifMessageLeave{LTime: serf.LamportTime(100 + i), Node: m.Name}, false)
+			if err != nil {
+				x.Inconclusive("cannot encode a leave intent")
+				return
+			}
+			dl.NotifyMsg(buf)
+		}
+		if m.Status == 3 || m.Status == 4 { // left, failed: memberlist reports it gone
+			ed.NotifyLeave(n)
+		}
+	}
+
+	cl, err := client.NewRPCClient(ln.Addr().String())
+	if err != nil {
+		x.Inconclusive("RPC client could not connect")
+		return
+	}
+	defer cl.Close()
+	base, err := cl.Members()
+	if err != nil {
+		x.Inconclusive("unfiltered members call failed")
+		return
+	}
+	var subjects []c26Subject
+	statuses := map[string]bool{}
+	for _, m := range base {
+		subjects = append(subjects, c26Subject{ID: m.Name, Name: m.Name, Status: m.Status, Tags: m.Tags})
+		statuses[m.Status] = true
+	}
+	x.Labelf("rpc:distinct-statuses=%d", len(statuses))
+	var ftags map[string]string
+	if c.Tags != nil {
+		ftags = map[string]string{}
+		for k, v := range c.Tags {
+			ftags[k] = v
+		}
+	}
+	got, err := cl.MembersFiltered(ftags, c.Status, c.Name)
+	var gotIDs []string
+	for _, g := range got {
+		gotIDs = append(gotIDs, g.Name)
+		for _, b := range base {
+			if b.Name == g.Name && !reflect.DeepEqual(g, b) {
+				x.Violationf("listed-member-altered", "member %q is listed as %+v, the unfiltered list has %+v", g.Name, g, b)
+				return
+			}
+		}
+	}
+	c26Judge(c, x, subjects, gotIDs, len(got) > 0, err)
+}
+
+// c26Judge compares the identifiers of the returned list with the oracle's.
+func c26Judge(c c26Case, x *vkit.Ctx, subjects []c26Subject, gotIDs []string, hasList bool, err error) {
 	type filt struct {
 		kind string // "tag:<k>", "status", "name"
 		expr string
-		get  func(m c26Member) string
+		get  func(m c26Subject) string
 		m    *c26Matcher
 	}
 	var filts []filt
@@ -280,11 +441,11 @@ func bodyC26(c c26Case, x *vkit.Ctx) {
 	sort.Strings(tkeys)
 	for _, k := range tkeys {
 		k := k
-		filts = append(filts, filt{kind: "tag", expr: c.Tags[k], get: func(m c26Member) string { return m.Tags[k] }})
+		filts = append(filts, filt{kind: "tag", expr: c.Tags[k], get: func(m c26Subject) string { return m.Tags[k] }})
 	}
 	// status and name patterns are validated even when empty (empty is valid)
-	filts = append(filts, filt{kind: "status", expr: c.Status, get: func(m c26Member) string { return serf.MemberStatus(m.Status).String() }})
-	filts = append(filts, filt{kind: "name", expr: c.Name, get: func(m c26Member) string { return m.Name }})
+	filts = append(filts, filt{kind: "status", expr: c.Status, get: func(m c26Subject) string { return m.Status }})
+	filts = append(filts, filt{kind: "name", expr: c.Name, get: func(m c26Subject) string { return m.Name }})
 
 	invalid := ""
 	invalidKind := ""
@@ -321,11 +482,11 @@ func bodyC26(c c26Case, x *vkit.Ctx) {
 		x.Label("invalid-pattern:" + cls)
 		x.NonTrivial(hasInvalidTrailing)
 		if err == nil {
-			x.Violationf("invalid-pattern-accepted:"+cls, "%s pattern %q does not compile as a regular expression, but the filter returned no error (list of %d members)", invalidKind, invalid, len(got))
+			x.Violationf("invalid-pattern-accepted:"+cls, "%s pattern %q does not compile as a regular expression, but the filter returned no error (list of %d members)", invalidKind, invalid, len(gotIDs))
 			return
 		}
-		if got != nil {
-			x.Violationf("list-with-error", "invalid pattern %q: error %v but also a list of %d", invalid, err, len(got))
+		if hasList {
+			x.Violationf("list-with-error", "invalid pattern %q: error %v but also a list of %d", invalid, err, len(gotIDs))
 		}
 		return
 	}
@@ -334,11 +495,11 @@ func bodyC26(c c26Case, x *vkit.Ctx) {
 		return
 	}
 
-	want := map[uint16]bool{}
+	want := map[string]bool{}
 	failing := map[int][]string{} // member index -> kinds of filters the oracle says do not match
 	failingAlt := map[int]bool{}
 	distinguishes := false // a `|` pattern and a member where search-match != whole-match
-	for i, m := range c.Members {
+	for i, m := range subjects {
 		all := true
 		for _, f := range filts {
 			if f.kind != "tag" && f.expr == "" {
@@ -363,7 +524,7 @@ func bodyC26(c c26Case, x *vkit.Ctx) {
 			}
 		}
 		if all {
-			want[uint16(7000+i)] = true
+			want[m.ID] = true
 		}
 	}
 	x.NonTrivial(hasAlt && distinguishes)
@@ -373,18 +534,18 @@ func bodyC26(c c26Case, x *vkit.Ctx) {
 	switch {
 	case len(want) == 0:
 		x.Label("expect-none")
-	case len(want) == len(c.Members):
+	case len(want) == len(subjects):
 		x.Label("expect-all")
 	default:
 		x.Label("expect-some")
 	}
 
-	gotSet := map[uint16]int{}
-	for _, g := range got {
-		gotSet[g.Port]++
+	gotSet := map[string]int{}
+	for _, g := range gotIDs {
+		gotSet[g]++
 	}
-	for i, m := range c.Members {
-		p := uint16(7000 + i)
+	for i, m := range subjects {
+		p := m.ID
 		switch {
 		case gotSet[p] > 1:
 			x.Violationf("member-listed-twice", "member #%d %q listed %d times", i, m.Name, gotSet[p])
@@ -395,11 +556,11 @@ func bodyC26(c c26Case, x *vkit.Ctx) {
 				sig = "alternation-not-whole-match"
 			}
 			x.Violationf(sig, "member #%d (name %q status %s tags %q) is listed, but filter(s) %v do not match the whole value; filters: tags %q status %q name %q",
-				i, m.Name, serf.MemberStatus(m.Status), m.Tags, failing[i], c.Tags, c.Status, c.Name)
+				i, m.Name, m.Status, m.Tags, failing[i], c.Tags, c.Status, c.Name)
 			return
 		case gotSet[p] == 0 && want[p]:
 			x.Violationf("omitted-although-all-match", "member #%d (name %q status %s tags %q) whole-matches every filter (tags %q status %q name %q) but is not listed",
-				i, m.Name, serf.MemberStatus(m.Status), m.Tags, c.Tags, c.Status, c.Name)
+				i, m.Name, m.Status, m.Tags, c.Tags, c.Status, c.Name)
 			return
 		}
 		delete(gotSet, p)
